@@ -65,7 +65,7 @@ def h_fpeprp(P, X):
     f = X.call(BitwiseFFX)
     back = X.method(f, "decrypt", X.call(bytes, key), y)
     ok = X.all(X.eq(y.length, n), X.ult(y.value, 1 << n), X.eq(back.value, x))
-    for (dn, dk) in ((1, 0), (-1, 0), (0, 8), (0, -8)):
+    for (dn, dk) in ((1, 0), (-1, 0), (0, 8), (0, -8), (0, -1), (0, -7), (0, 1), (0, 7)):
         if n + dn < 1 or kb + dk < 8:
             continue
         try:
